@@ -88,6 +88,9 @@ func runOnce(sc scenario, prefix []int, trace bool) (*vsched.Result, *world) {
 						}
 						w.invoked[c.Key]++
 						w.fresh++
+						if c.Key%10 == 2 {
+							return starlark.None, nil // a callable without a return statement ("run this step once")
+						}
 						return starlark.MakeInt(1000*c.Key + w.fresh), nil
 					})
 					v, err := starlark.Call(th, onceOf(c.Key), starlark.Tuple{starlark.String(fmt.Sprint("k", c.Key%10)), fn}, nil)
@@ -298,6 +301,9 @@ func freePass(scs []scenario) {
 							}
 							invoked[c.Key]++
 							fresh++
+							if c.Key%10 == 2 {
+								return starlark.None, nil
+							}
 							return starlark.MakeInt(1000*c.Key + fresh), nil
 						})
 						v, _ := starlark.Call(th, onceOf(c.Key), starlark.Tuple{starlark.String(fmt.Sprint("k", c.Key%10)), fn}, nil)
@@ -364,7 +370,15 @@ func main() {
 					res2, w2 := runOnce(sc, res.Choices, true)
 					b2 := verdicts(sc, res2, w2)
 					if strings.Join(b2, ";") != strings.Join(bad, ";") {
-						vlib.Fatalf("violation did not reproduce on replay: %v vs %v", bad, b2)
+						// the violation was observed; that the same schedule does not repeat it means
+						// the code under test consults something the scheduler does not control (a
+						// random seed, the clock): reported as seen, under a signature of its own
+						for _, b := range bad {
+							p := strings.SplitN(b, "|", 2)
+							r.Violation("C20:"+p[0]+":not-repeatable-under-the-same-schedule", fmt.Sprintf("%s [%s] schedule=%v (a replay of the same schedule gave %v)", p[1], sc, res.Choices, b2), replayFile{sc, res.Choices, bad, w.log, res.Logs})
+						}
+						res.Points = nil
+						return res
 					}
 					for _, b := range bad {
 						p := strings.SplitN(b, "|", 2)
